@@ -701,6 +701,11 @@ def _eqz(d):
         return bnot(d)
     if d.op == "ite":
         return ite(d.args[0], eqz(d.args[1]), eqz(d.args[2]))
+    if d.op == "aff" and len(d.args) == 1 and d.args[0].op == "ite" and d.args[0].w == d.w and d.aux[1][0] == ident_packed(d.w, d.w):
+        # (if c { a } else { b }) == k: the comparison goes into the branches
+        it = d.args[0]
+        k_ = const(d.aux[0], d.w)
+        return ite(it.args[0], eqz(xor(it.args[1], k_)), eqz(xor(it.args[2], k_)))
     if d.op == "aff" or d.op != "ring":
         c, e = aff_parts(d)
         w = d.w
